@@ -5,6 +5,7 @@ import (
 	"context"
 	"encoding/json"
 	"fmt"
+	"grol.io/grol/extensions"
 	"os"
 	"os/exec"
 	"runtime/debug"
@@ -115,7 +116,7 @@ func (c09) Budget(tier string) core.Budget {
 	if tier == "thorough" {
 		return core.Budget{Runs: 3600, WallCap: 25 * time.Minute}
 	}
-	return core.Budget{Runs: 204, WallCap: 50 * time.Second}
+	return core.Budget{Runs: 204, WallCap: 80 * time.Second}
 }
 
 type c09prog struct {
@@ -463,6 +464,9 @@ func c09Worker(args []string) int {
 func c09dWorker(args []string) int {
 	maxDepth, _ := strconv.Atoi(args[0])
 	fireAt, _ := strconv.ParseInt(args[1], 10, 64)
+	if strings.Contains(args[3], "run(") || strings.Contains(args[3], "exec(") {
+		world.Install(&extensions.Config{HasLoad: true, HasSave: true, UnrestrictedIOs: true})
+	}
 	s := world.NewSession(world.SessCfg{MaxDepth: maxDepth, Budget: 1 << 40})
 	if args[2] != "" {
 		s.Input(args[2], nil)
@@ -479,6 +483,10 @@ var c09NoPoll = []c09prog{
 	{"macro-body-loop", "", "mloop = macro() { for true { } }\nmloop()", 1, true},
 	{"macro-arg-loop", "mq = macro(a1) { quote(unquote(a1)) }", `mq((() => { for true { } })())`, 1, true},
 	{"load-loop", `save("c09tmp")`, `unjson("for true { len([1]) }")`, 1, true},
+	// process-execution functions (unrestricted IO, the CLI default) juggle the state's context
+	{"run-then-loop", "", `run("true"); for true { }`, 1, true},
+	{"run-error-then-loop", "", `catch(run("/nonexistent/c09cmd")); for true { }`, 1, true},
+	{"exec-then-loop", "", `exec("true"); for true { }`, 1, true},
 }
 
 func (c09) execNoPoll(h *core.History) *core.Outcome {
@@ -505,6 +513,7 @@ func (c09) execNoPoll(h *core.History) *core.Outcome {
 	cmd.Stdout, cmd.Stderr = &ob, &eb
 	err := cmd.Run()
 	st.Children = 1
+	st.Probe("nopoll_program:" + key)
 	class := "?"
 	switch {
 	case ctx.Err() != nil:
